@@ -115,7 +115,7 @@ def gen_cases(ctx):
     mk("add", a=sv(rng, 2), b=sv(rng, 3)); mk("sub", a=sv(rng, 1), b=sv(rng, 2)); mk("sum", list=[]); mk("sum", list=[sv(rng, 1), sv(rng, 2)])
     # scalars on an axis (purely imaginary, purely real, zero, -0 real part) on either side of the state; and inner products whose first
     # or second argument is a basis state carrying a sign, a phase or a scale (Z|1>, Y|0>, -|k>, 0.5|k>)
-    for n in (1, 2, 3, 5):
+    for n in (1, 2, 3, 5, 7, 8):          # 7, 8: beyond the 64-amplitude threshold of the parallel inner product
         a = sv(rng, n, "generic")
         for z in ((0.0, 1.0), (0.0, -0.7), (-0.0, 2.5), (1.5, 0.0), (-1.0, 0.0), (0.0, 0.0), (0.0, 1e-9)):
             zz = [float2bits(z[0]), float2bits(z[1])]
@@ -129,6 +129,12 @@ def gen_cases(ctx):
             e = {"n": n, "v": v}
             b = sv(rng, n, rng.choice(["generic", "normalised"]))
             mk("inner", a=e, b=b); mk("inner", a=b, b=e); mk("inner", a=e, b=e); mk("inner_self", a=e)
+    # vectors with exact zeros next to purely real and purely imaginary amplitudes (e.g. (|0> + i|1>)/sqrt 2 (x) |0..0>) on either side,
+    # below and above the threshold of the parallel inner product: a "skip the zero amplitudes" shortcut must look at both parts
+    for n in (2, 6, 7, 8, 9):
+        for _ in range(2):
+            e = sv(rng, n, "axis"); b = sv(rng, n, rng.choice(["generic", "normalised", "axis"]))
+            mk("inner", a=e, b=b); mk("inner", a=b, b=e); mk("inner_self", a=e); mk("fidelity", a=e, b=b); mk("fidelity", a=e, b=e)
     # the same operations inside pools of 3 / 5 / 6 workers (counts that do not divide the vector length), on 16 .. 256 amplitudes
     for k in (3, 5, 6):
         for n in (4, 5, 7, 8):
